@@ -354,19 +354,35 @@ async fn plateau_case(rep: &mut Report, rng: &mut Rng, pair: Pair, tr: Transport
   let _ = a.connect(&ep).await;
   tokio::time::sleep(Duration::from_millis(300)).await;
   let run = (rng.next() & 0x7FFF_FFFF) as u32;
+  // phase 1 (fill): produce until nothing has been accepted for 600 ms - the queues are full, however long that took
+  // (HWM 100 with 64 KiB messages, or an oversubscribed machine, need more than a fixed two seconds);
+  // phase 2 (plateau): keep trying for 2 s - a peer that never reads must not make room again
   let window = Duration::from_millis(2000);
   let t0 = Instant::now();
   let (mut first_half, mut second_half, mut refused) = (0usize, 0usize, 0usize);
   let mut seq = 0u32;
   let mut other_err: Option<String> = None;
-  while t0.elapsed() < window * 2 {
+  let mut last_accept = Instant::now();
+  let mut plateau_since: Option<Instant> = None;
+  let fill_cap = util::scaled(Duration::from_secs(20));
+  loop {
+    if let Some(p) = plateau_since {
+      if p.elapsed() >= window {
+        break;
+      }
+    } else if last_accept.elapsed() >= Duration::from_millis(600) && refused > 0 {
+      plateau_since = Some(Instant::now());
+    } else if t0.elapsed() > fill_cap {
+      break;
+    }
     match tokio::time::timeout(Duration::from_secs(2), send_one(&a, run, seq, msg_len, &dest)).await {
       Ok(Ok(())) => {
-        if t0.elapsed() < window {
+        if plateau_since.is_none() {
           first_half += 1;
         } else {
           second_half += 1;
         }
+        last_accept = Instant::now();
         seq += 1;
       }
       Ok(Err(e)) => {
@@ -384,14 +400,14 @@ async fn plateau_case(rep: &mut Report, rng: &mut Rng, pair: Pair, tr: Transport
   let cfg = format!("{:?} over {} HWM={} SNDTIMEO=0 heartbeat={}", pair, tr.name(), hwm, hb_side);
   rep.case(&("plateau", pair, tr, hwm, hb_side), true);
   rep.max(&format!("max:plateau_accepted_second_half[{}]", hb_side), second_half as u64);
-  if refused == 0 {
-    rep.inconclusive(format!("{}: the producer was never refused in {:?} ({} accepted): queues never filled", cfg, window * 2, first_half + second_half));
+  if refused == 0 || plateau_since.is_none() {
+    rep.inconclusive(format!("{}: the queues never filled within {:?} ({} accepted, {} refusals, last acceptance {:?} ago)", cfg, fill_cap, first_half + second_half, refused, last_accept.elapsed()));
   } else if let Some(e) = other_err {
     rep.note(format!("{}: sends failed with {} (connection lost?) - plateau not judged", cfg, e));
   } else if second_half > 2 {
     rep.violation(
       format!("hwm_unbounded|still_accepting_while_peer_never_reads|heartbeat={}", hb_side),
-      format!("{}: the peer never read, yet after {} messages in the first {:?} another {} were accepted in the next {:?} ({} refusals): buffering keeps growing", cfg, first_half, window, second_half, window, refused),
+      format!("{}: the peer never read; after {} messages nothing was accepted for 600 ms (queues full), yet another {} were accepted in the following {:?} ({} refusals in all): buffering keeps growing", cfg, first_half, second_half, window, refused),
       json!({"config": cfg, "first_half": first_half, "second_half": second_half, "refused": refused}),
     );
   }
